@@ -107,13 +107,15 @@ func LoadCanon(texts []string) string {
 
 // LoadHistory: gqlparser.LoadSchema (the top-level entry point, with the library's own prelude
 // source) on each source set in turn, in this one process; observations joined by ";;".
-func LoadHistory(sets [][]string) string {
+func LoadHistory(sets [][]string, builtinFirst bool) string {
 	var out []string
 	for _, texts := range sets {
 		var srcs []*ast.Source
 		byName := map[string]int{validator.Prelude.Name: 0}
 		for i, t := range texts {
-			s := &ast.Source{Name: "u" + strconv.Itoa(i+1), Input: t}
+			// (builtinFirst: the caller marks its first source BuiltIn, as frameworks do for their own
+			// directive files; that changes nothing about what is loaded)
+			s := &ast.Source{Name: "u" + strconv.Itoa(i+1), Input: t, BuiltIn: builtinFirst && i == 0 && len(texts) > 1}
 			srcs = append(srcs, s)
 			byName[s.Name] = i + 1
 		}
@@ -250,6 +252,21 @@ func init() {
 			}
 		}
 		sets = append(sets, unhexAll(cur))
-		return LoadHistory(sets)
+		return LoadHistory(sets, false)
+	}
+	// loadhistb: the same with the first source of every multi-source set marked BuiltIn
+	Ops["loadhistb"] = func(a []string) string {
+		var sets [][]string
+		cur := []string{}
+		for _, w := range a {
+			if w == "|" {
+				sets = append(sets, unhexAll(cur))
+				cur = []string{}
+			} else {
+				cur = append(cur, w)
+			}
+		}
+		sets = append(sets, unhexAll(cur))
+		return LoadHistory(sets, true)
 	}
 }
